@@ -84,7 +84,15 @@ func runSolver(ctx context.Context, sp solverSpec, file string, secs int) (strin
 	cmd := exec.CommandContext(cctx, argv[0], argv[1:]...)
 	out, _ := cmd.CombinedOutput()
 	s := string(out)
-	first := strings.TrimSpace(strings.SplitN(s, "\n", 2)[0])
+	first := ""
+	for _, l := range strings.Split(s, "\n") {
+		l = strings.TrimSpace(l)
+		if l == "" || strings.HasPrefix(l, "WARNING") {
+			continue // solver diagnostics precede the answer
+		}
+		first = l
+		break
+	}
 	switch first {
 	case "sat", "unsat", "unknown", "timeout":
 		return first, s
